@@ -21,7 +21,7 @@ func init() {
 			"pppoe.Server.expireSessions", "pppoe.Server.Stop", "pppoe.Server.handleIPCPConfigAck",
 			// subscriber.Manager: administrative / RADIUS disconnect, session and idle timeout
 			"subscriber.Manager.TerminateSession", "subscriber.Manager.cleanupExpiredSessions", "subscriber.Manager.emitEvent",
-			"subscriber.Manager.CreateSession", "subscriber.NewManager",
+			"subscriber.Manager.CreateSession", "subscriber.NewManager", "subscriber.Manager.AssignAddress",
 		},
 		Trusted: []string{
 			"ebpf.Loader.RemoveSubscriber / RemoveVLANSubscriber / RemoveCircuitIDSubscriber / RemoveCircuitIDMapping, qos.Manager.RemoveSubscriberQoS: trusted frames (write kernel maps / their own tables only); each call is observed by the caller through a ghost counter",
